@@ -405,7 +405,8 @@ theorem _cpython_abis_eq_model (cfg : Cfg) (ver : List Nat) (warn : PyVal) :
         rw [a, b]
   have e6 : (PyVal.int (if cfg.maxUnicodeWide then 1114111 else 65535)).eq (PyVal.int 1114111) = cfg.maxUnicodeWide := by
     cases cfg.maxUnicodeWide <;> simp
-  simp only [e1, e2, e3, e4, e5, e6, ok_bind, truthy_bool, format_str, list_append_list, List.nil_append]
+  simp only [e1, e2, e3, e4, e5, e6, ok_bind, truthy_bool, format_str, list_append_list, List.nil_append, PyRt.eq,
+    PyRt.is_none, pure_ok, isNone_ofCV]
   clear g1 g2 g3 g4 hnd hsl htup e1 e2 e3 e4 e5 e6 h313 h38 h33
   have hins : ∀ (l : List PyVal) (x : PyVal), list_insert (.list l) (.int 0) x = .ok (.list (x :: l)) := by
     intro l x
@@ -414,14 +415,16 @@ theorem _cpython_abis_eq_model (cfg : Cfg) (ver : List Nat) (warn : PyVal) :
   simp only [hins]
   generalize (cfg.pyDebug.truthy || cfg.pyDebug.isNone && (cfg.hasRefcount || cfg.hasDebugExt)) = dB
   generalize (cfg.withPymalloc.truthy || cfg.withPymalloc.isNone) = pB
-  generalize (cfg.unicodeSize == CV.int 4 || cfg.unicodeSize.isNone && cfg.maxUnicodeWide) = uB
+  generalize (cfg.unicodeSize == CV.int 4) = u1
+  generalize cfg.unicodeSize.isNone = u2
+  generalize cfg.maxUnicodeWide = u3
   generalize tupGe ver [3, 13] = a5
   generalize tupLt ver [3, 8] = a7
   generalize tupLt ver [3, 3] = a10
   have hg : truthy (ofCV cfg.gilDisabled) = cfg.gilDisabled.truthy := truthy_ofCV _
   generalize hgT : cfg.gilDisabled.truthy = gT at hg
   generalize versionNodot (List.take 2 ver) = vn
-  cases dB <;> cases pB <;> cases uB <;> cases a5 <;> cases a7 <;> cases a10 <;> cases gT <;>
+  cases dB <;> cases pB <;> cases u1 <;> cases u2 <;> cases u3 <;> cases a5 <;> cases a7 <;> cases a10 <;> cases gT <;>
     simp [hg, ofStrs, sCp, ofString]
 
 /-! #### pieces of `cpython_tags` -/
